@@ -38,8 +38,13 @@ from .index import AnalysisError, norm
 def canon_test(t: ast.expr, pol: bool) -> tuple[ast.expr, bool]:
     """One representation for a decision and its negation: ``not X`` -> (X, flipped);
     ``a is not b`` / ``a != b`` / ``a not in b`` -> (``a is b`` / ``a == b`` / ``a in b``, flipped)."""
-    while isinstance(t, ast.UnaryOp) and isinstance(t.op, ast.Not):
-        t, pol = t.operand, not pol
+    while True:
+        if isinstance(t, ast.UnaryOp) and isinstance(t.op, ast.Not):
+            t, pol = t.operand, not pol
+        elif isinstance(t, ast.Call) and isinstance(t.func, ast.Name) and t.func.id == "bool" and len(t.args) == 1 and not t.keywords:
+            t = t.args[0]  # a test of bool(X) is a test of X
+        else:
+            break
     if isinstance(t, ast.Compare) and len(t.ops) == 1:
         flip = {ast.IsNot: ast.Is, ast.NotEq: ast.Eq, ast.NotIn: ast.In}.get(type(t.ops[0]))
         if flip is not None:
